@@ -616,6 +616,16 @@ def _mutants(rep, d):
     return progs
 
 
+def _coverage(out):
+    """action -> number of states generated (tlc.py's parser skips actions whose location carries a
+    parenthesised sub-expression suffix, as the quantified CallAny does)"""
+    cov = {}
+    for m in re.finditer(r"^<([A-Za-z_][A-Za-z0-9_]*) line \d+, col \d+ to line \d+, col \d+ of module FwdRef"
+                         r"(?: \([\d ]+\))?>: (\d+):(\d+)", out, re.M):
+        cov[m.group(1)] = cov.get(m.group(1), 0) + int(m.group(3))
+    return cov
+
+
 def _intended(rep, d, groups, steps, defs, calls):
     for k, (pls, hints) in enumerate(groups):
         cfg = write_file(d, f"int{k}.cfg", _cfg(pls, hints, steps, defs, calls))
@@ -629,7 +639,8 @@ def _intended(rep, d, groups, steps, defs, calls):
             need |= {"EnterF", "LeaveF", "EnterF2", "Redefine"}
         if any(p in pls for p in ("nmethod", "nmethod_cd")):
             need |= {"EnterC", "EnterD", "LeaveD", "LeaveC"}
-        zero = [a for a in need if res.coverage.get(a, (0, 0))[1] == 0]
+        cov = _coverage(res.output)
+        zero = [a for a in need if cov.get(a, 0) == 0]
         if zero and set(hints) != {"Self"}:
             rep.machinery(f"vacuous TLC run on {pls} x {hints}: actions never taken: {zero}")
 
